@@ -118,8 +118,132 @@ def run(rep, tier):
         rep.require(n_int >= 225, "%s: only %d integer pairs analysed" % (db.label, n_int))
         check_arrays(rep, db)
     rep.extra["integer_pairs"] = len(pairs_seen)
+    rep.rule("R-C06-route", "in the boundary functions (tainted_volatile load/store, tainted<->sandbox conversions, invoke arguments/results, callback arguments/results, struct converters) every store of an integer value that was read "
+             "from the other side of the boundary happens inside convert_type_fundamental (event stack), never by a direct assignment between host- and guest-typed storage")
+    rep.rule("R-C06-map", "convert_base_types_t maps short/int/long/long long (and unsigned forms) to the backend's types preserving signedness and cv, pointers to the backend pointer type, recurses through arrays, and leaves bool/char/float/enum unchanged (compiler-judged equalities)")
+    rdbs = facts.load_core(["model32"], ["PTR", "INVOKE"], thorough=(tier == "thorough"))
+    for d_ in rdbs:
+        rep.units.append(d_.label)
+    check_route(rep, rdbs)
+    map_witnesses(rep)
     rep.assumptions += ["LP64 host data model as reported by clang for the analysed target",
                         "abort checks are recognised semantically (any function that aborts/throws unless its bool argument holds)"]
+
+
+ROUTE_FUNCS = {"rlbox::tainted_volatile::operator=", "rlbox::tainted_volatile::get_raw_value", "rlbox::tainted::get_raw_sandbox_value", "rlbox::tainted::tainted",
+               "rlbox::rlbox_sandbox::INTERNAL_invoke_with_func_ptr", "rlbox::rlbox_sandbox::sandbox_callback_interceptor", "rlbox::detail::convert_type_class::run",
+               "rlbox::tainted_base_impl::copy_and_verify", "rlbox::tainted_base_impl::copy_and_verify_range"}
+
+
+def check_route(rep, dbs):
+    """R-C06-route: integer values cross between guest-typed and host-typed storage only inside convert_type_fundamental"""
+    from .. import q
+    from ..engine import C, subterms
+    from .c09 import root_of
+    n = 0
+    for db in dbs:
+        for f in db.functions:
+            if f["dep"] or "body" not in f or f["n"] not in ROUTE_FUNCS:
+                continue
+            inst = "%s | %s" % (db.label, f["full"][:150])
+            try:
+                ps = q.paths(db, f)
+            except EngInconclusive:
+                continue
+            bad = None
+            cnt = 0
+            cls = f["n"].rsplit("::", 1)[0]
+            ptypes = {}
+            from ..engine import root_param_names
+            for pn, pp in zip(root_param_names(f), f["params"]):
+                ptypes[pn] = (pp["t"] or {}).get("c") or ""
+
+            def in_sandbox(lv):
+                r0 = root_of(lv)
+                if not isinstance(r0, tuple):
+                    return False
+                if r0[:1] == ("deref",):
+                    return cls == "rlbox::tainted_volatile" if r0 == ("deref", ("this",)) else True
+                if r0[:1] == ("pobj",):
+                    return "tainted_volatile<" in ptypes.get(r0[1], "")
+                return False
+
+            for p in ps:
+                converted = set()
+                for e in p.events:
+                    if e.kind != "STORE" or (e.extra or {}).get("rec"):
+                        continue
+                    inside = any(nm == "rlbox::detail::convert_type_fundamental" for nm, _l in e.stack)
+                    v = e.b
+                    srcs = [x for x in subterms(v) if isinstance(x, tuple) and x and x[0] in ("rd", "vrd")]
+                    if inside:
+                        for x in srcs:
+                            converted.add(x)
+                        continue
+                    ty = (e.extra or {}).get("t") or {}
+                    if ty.get("k") not in ("int", "bool"):
+                        continue
+                    if v[0] == "c":
+                        continue
+                    # pointer representations and callback trampolines are C04's / C12's
+                    if any(isinstance(x, tuple) and x and ((x[0] in ("call", "ucall") and q.short(x[1] if x[0] == "call" else x[2]).startswith("impl_")) or
+                                                           (x[0] == "fld" and x[2] in ("callback_trampoline", "idx"))) for x in subterms(v)):
+                        continue
+                    dst_sbx = in_sandbox(e.a)
+                    src_sbx = [x for x in srcs if in_sandbox(x[1] if x[0] == "rd" else x[2])]
+                    src_app = [x for x in srcs if not in_sandbox(x[1] if x[0] == "rd" else x[2])]
+                    crossing = (dst_sbx and any(x not in converted for x in src_app)) or (not dst_sbx and any(x not in converted for x in src_sbx))
+                    if not crossing:
+                        continue
+                    bad = e
+                    break
+                cnt += len(converted)
+                if bad:
+                    break
+            if bad:
+                rep.violation("R-C06-route", site(f), "an integer value is moved across the ABI boundary by a direct assignment (%s := %s) instead of through the checked conversion routine" % (fmt(bad.a)[:60], fmt(bad.b)[:80]), bad.loc, inst)
+            elif cnt:
+                n += 1
+                rep.ok("R-C06-route", site(f), "%d integer stores, all inside convert_type_fundamental" % cnt, inst)
+    rep.require(n >= 100, "only %d boundary functions with integer stores analysed (floor 100)" % n)
+
+
+def map_witnesses(rep):
+    """R-C06-map: convert_base_types_t maps each integer type to the backend's corresponding type (compiler-judged type equalities)"""
+    from .. import witness
+    from ..witness import W, TYPE_MARK
+    SH, IN, LO, LL, PT = "int16_t", "int32_t", "int32_t", "int64_t", "uint32_t"
+    conv = lambda T: "detail::convert_base_types_t<%s, %s, %s, %s, %s, %s>" % (T, SH, IN, LO, LL, PT)
+    table = {"short": SH, "unsigned short": "std::make_unsigned_t<%s>" % SH, "int": IN, "unsigned int": "std::make_unsigned_t<%s>" % IN, "long": LO, "unsigned long": "std::make_unsigned_t<%s>" % LO,
+             "long long": LL, "unsigned long long": "std::make_unsigned_t<%s>" % LL, "bool": "bool", "char": "char", "signed char": "signed char", "unsigned char": "unsigned char",
+             # char16_t / char32_t are unsigned integer types and follow the unsigned rule: the unsigned form of the backend type of their signed counterpart (short / int)
+             "char16_t": "std::make_unsigned_t<%s>" % SH, "char32_t": "std::make_unsigned_t<%s>" % IN, "float": "float", "double": "double", "VbEnum": "VbEnum", "void": "void",
+             "int*": PT, "void*": PT, "const char*": PT, "int**": PT, "int (*)(int)": PT}
+    ws = []
+    for T, G in table.items():
+        ws.append(W("must_accept", "static_assert(std::is_same_v<%s, %s>, \"%s\");" % (conv(T), G, TYPE_MARK), "%s -> %s" % (T, G), group="map"))
+        if T not in ("void",) and "(*)" not in T:
+            ws.append(W("must_accept", "static_assert(std::is_same_v<%s, const %s>, \"%s\");" % (conv("const " + T) if "*" not in T else conv(T + " const"), G, TYPE_MARK), "const %s -> const %s" % (T, G), group="map"))
+        if T not in ("void",) and "*" not in T:
+            ws.append(W("must_accept", "static_assert(std::is_same_v<%s, %s[3]>, \"%s\");" % (conv(T + "[3]"), G, TYPE_MARK), "%s[3] -> %s[3]" % (T, G), group="map"))
+            ws.append(W("must_accept", "static_assert(std::is_same_v<%s, %s[2][3]>, \"%s\");" % (conv(T + "[2][3]"), G, TYPE_MARK), "%s[2][3] -> %s[2][3]" % (T, G), group="map"))
+    ws.append(W("must_accept", "static_assert(std::is_same_v<%s, %s[4]>, \"%s\");" % (conv("int*[4]"), PT, TYPE_MARK), "int*[4] -> uint32_t[4]", group="map"))
+    # signedness and width are preserved for the model in use through the public alias as well
+    for T, G in (("long", "int32_t"), ("unsigned long", "uint32_t"), ("short", "int16_t"), ("long long", "int64_t"), ("char*", "uint32_t")):
+        ws.append(W("must_accept", "static_assert(std::is_same_v<SB<@N>::convert_to_sandbox_equivalent_nonclass_t<%s>, %s>, \"%s\");" % (T, G, TYPE_MARK), "sandbox alias: %s -> %s" % (T, G), group="map"))
+    for i, w in enumerate(ws):
+        w.n = 1000 + i
+    res, unattr = witness.judge(ws, "clang++", batch=200)
+    rep.require(not unattr, "unattributed compiler errors in the type-map corpus: %s" % unattr[:2])
+    for w in ws:
+        verdict, msgs = res[w.n]
+        if witness.alarm(w, verdict):
+            verdict, msgs = witness.confirm(w)
+        if witness.alarm(w, verdict):
+            rep.violation("R-C06-map", "rlbox::detail::convert_base_types_t", "type mapping %s does not hold (%s)" % (w.desc, (msgs[:1] or [""])[0][:160]), "W:%d" % w.n, w.desc)
+        else:
+            rep.ok("R-C06-map", "rlbox::detail::convert_base_types_t", w.desc, w.desc)
+    rep.extra["map_witnesses"] = len(ws)
 
 
 def check_arrays(rep, db):
